@@ -130,3 +130,35 @@ def oracle_bytes(req, impl, build):
                     return "Mock::fill_bytes is not the little-endian word stream"
                 i += need
     return None
+
+
+def extra(binary, build, tier, rng):
+    """Mock behind the TYPED fill entry points on big destinations: `Random::fill_bytes` over element sizes that divide neither 4096 nor 65536
+    (a wrapper that splits big requests on element boundaries ends its chunks inside a word) - the bytes must be the little-endian serialisation
+    of the provided words, each word used once and in order"""
+    if build != "dev" and tier == "quick":
+        return
+    shapes = [("a3u8", 3, 30000, "fill_bytes"), ("a5u32", 20, 5000, "fill_bytes_uninit"), ("a3u8", 3, 1400, "fill_bytes"), ("u8", 1, 70001, "read_exact")]
+    reqs, wordsl = [], []
+    for elem, esize, count, api in shapes:
+        n = esize * count
+        words = [rng.u64() for _ in range((n + 7) // 8 + 1)]
+        reqs.append("fillb gen=mock words=%s api=%s elem=%s off=%d count=%d pre=" % (",".join(map(str, words)), api, elem, 0 if elem == "a5u32" else 1, count))
+        wordsl.append((words, n))
+    rc, res, err = C.run_lines(binary, ["run"], reqs)
+    for q, o, (words, n) in zip(reqs, res, wordsl):
+        short = q[:60] + " .. " + q[q.index(" api="):]
+        if not o.startswith("b:"):
+            yield {"kind": "oracle", "build": build, "request": q, "impl": o[:100], "model": "", "oracle": "a %d-byte typed fill from Mock with enough words failed: %s (%s)" % (n, o[:40], short)}
+            continue
+        t = dict(x.split(":", 1) for x in o.split())
+        want = b"".join(w.to_bytes(8, "little") for w in words)[:n]
+        got = bytes.fromhex(t["b"])
+        if got != want:
+            i = next(j for j in range(n) if got[j:j + 1] != want[j:j + 1])
+            yield {"kind": "oracle", "build": build, "request": q, "impl": o[:200], "model": "",
+                   "oracle": "byte %d of a %d-byte typed fill from Mock is 0x%02x, the provided words say 0x%02x: the words are not used once and in order (%s)" % (i, n, got[i] if i < len(got) else -1, want[i], short)}
+        elif t.get("next") != str(words[(n + 7) // 8]):
+            yield {"kind": "oracle", "build": build, "request": q, "impl": o[:100] + " .. next:" + t.get("next", "?"), "model": "",
+                   "oracle": "after a %d-byte typed fill Mock's next word is %s, not provided word number %d (%d): a word was skipped or used twice (%s)" % (n, t.get("next"), (n + 7) // 8, words[(n + 7) // 8], short)}
+    yield {"kind": "count", "what": "big-typed-mock-fills", "n": len(reqs)}
